@@ -90,7 +90,7 @@ theorem importBlock_ok {st : St} {b : BD} (hg : GoodBlock b) (hp : b.parent ∈ 
   by_cases hk : st.known.contains b.stated = true
   · simp only [hk, if_true]
     have : b.id ∈ st.known := by rw [← hs]; simpa using hk
-    exact ⟨⟨rfl, rfl, rfl, fun x hx => hx, by simp [Ev.flagOk], by simp [execIds, List.filterMap_cons, Ev.execId],
+    exact ⟨⟨rfl, rfl, rfl, fun x hx => hx, by simp [Ev.flagOk, hp], by simp [execIds, List.filterMap_cons, Ev.execId],
       by simp [execIds, List.filterMap_cons, Ev.execId]⟩, this⟩
   · have hnk : b.id ∉ st.known := by rw [← hs]; simpa using hk
     have hpk : st.known.contains b.parent = true := by simpa using hp
